@@ -38,14 +38,26 @@ const (
 	pko = "package-operator.run"
 	// CNS is the namespace the cluster-scoped half manages its objects in.
 	CNS = "cns"
+	// ANS is the namespace of the annotation-strategy half (its PKO objects and its managed objects).
+	ANS = "ans"
 )
 
 // half describes one of the two variants.
 type half struct {
 	cluster bool
+	// anno: the half's delegated phases are served by the phase controller that keeps ownership in
+	// the owners annotation (the multi-cluster constructor); its objects live in namespace ANS
+	anno bool
 }
 
-var halves = []half{{false}, {true}}
+// halvesOf: the two variants a scenario compares - namespaced vs cluster-scoped kinds, or (Variant
+// "annotation") native owner references vs the owners annotation, both on the namespaced kinds.
+func halvesOf(sc Scenario) []half {
+	if sc.Variant == "annotation" {
+		return []half{{}, {anno: true}}
+	}
+	return []half{{}, {cluster: true}}
+}
 
 func (h half) kind(k string) string {
 	if h.cluster {
@@ -55,15 +67,21 @@ func (h half) kind(k string) string {
 }
 
 func (h half) pkoNS() string {
-	if h.cluster {
+	switch {
+	case h.cluster:
 		return ""
+	case h.anno:
+		return ANS
 	}
 	return world.NS
 }
 
 func (h half) objNS() string {
-	if h.cluster {
+	switch {
+	case h.cluster:
 		return CNS
+	case h.anno:
+		return ANS
 	}
 	return world.NS
 }
@@ -80,6 +98,9 @@ func (h half) ctrl(kind string) string {
 	case "ObjectSetPhase":
 		if h.cluster {
 			return world.CtrlClusterPhase
+		}
+		if h.anno {
+			return world.CtrlPhaseAnno
 		}
 		return world.CtrlPhase
 	case "ObjectDeployment":
@@ -103,6 +124,8 @@ func toHalf(h half, typed client.Object) *unstructured.Unstructured {
 	md := c["metadata"].(map[string]any)
 	if h.cluster {
 		delete(md, "namespace")
+	} else {
+		md["namespace"] = h.pkoNS()
 	}
 	return &unstructured.Unstructured{Object: c}
 }
@@ -162,7 +185,7 @@ func names(w *world.World, h half, kind string) (plain []string, generated map[s
 }
 
 // pairs lists, in a canonical order, the paired PKO objects of the two halves.
-func pairs(w *world.World) []pair {
+func pairs(w *world.World, halves []half) []pair {
 	var out []pair
 	zip := func(kind string, label func(i int, n string) string, a, b []string, byName bool) {
 		if byName {
@@ -278,7 +301,7 @@ func pairs(w *world.World) []pair {
 }
 
 func (p pair) name(h half) string {
-	if h.cluster {
+	if h.cluster || h.anno {
 		return p.C
 	}
 	return p.N
@@ -298,8 +321,8 @@ func conds(c map[string]any) []string {
 	return out
 }
 
-func project(w *world.World, h half) string {
-	ps := pairs(w)
+func project(w *world.World, halves []half, h half) string {
+	ps := pairs(w, halves)
 	label := map[string]string{} // "<kind>/<stored name>" -> normalised label
 	for _, p := range ps {
 		if n := p.name(h); n != "" {
@@ -324,12 +347,26 @@ func project(w *world.World, h half) string {
 		c := w.S.Objs[k].Content
 		x, _ := world.Nested(c, "spec", "x")
 		var owners []string
-		for _, o := range world.Owners(c, false) {
+		all := world.Owners(c, false)
+		if h.anno {
+			all = append(all, world.Owners(c, true)...) // objects of in-process phases carry ownerReferences in this half too
+		}
+		for _, o := range all {
+			if halves[1].anno && !o.Controller {
+				continue // former controllers stay plain owners in ownerReferences and are dropped from the owners annotation: by design
+			}
 			owners = append(owners, fmt.Sprintf("%s ctrl=%v", norm(o.Kind, o.Name), o.Controller))
 		}
 		sort.Strings(owners)
+		cacheLabel := kmodel.Labels(c)["package-operator.run/cache"]
+		if halves[1].anno {
+			// a former controller that is torn down strips the label together with its plain owner
+			// entry; with the annotation strategy it is no owner any more and leaves the object alone
+			// (the controlling revision re-applies the label on its next pass)
+			cacheLabel = "-"
+		}
 		fmt.Fprintf(&sb, "%s/%s x=%v rev=%s owners=%v cacheLabel=%q terminating=%v status=%s\n", k.Kind, k.Name, x, kmodel.Annotations(c)[world.RevisionAnnotation], owners,
-			kmodel.Labels(c)["package-operator.run/cache"], kmodel.Terminating(c), osw.StatusClass(c))
+			cacheLabel, kmodel.Terminating(c), osw.StatusClass(c))
 	}
 	for _, p := range ps {
 		n := p.name(h)
@@ -378,9 +415,9 @@ func project(w *world.World, h half) string {
 	return sb.String()
 }
 
-// Invariant: the two halves project to the same thing.
-func Invariant(w *world.World) []world.Finding {
-	a, b := project(w, halves[0]), project(w, halves[1])
+// invariant: the two halves project to the same thing.
+func invariant(w *world.World, halves []half) []world.Finding {
+	a, b := project(w, halves, halves[0]), project(w, halves, halves[1])
 	if a == b {
 		return nil
 	}
@@ -397,6 +434,9 @@ func Invariant(w *world.World) []world.Finding {
 		if x != y {
 			diff = append(diff, "  namespaced:     "+x, "  cluster-scoped: "+y)
 		}
+	}
+	if halves[1].anno {
+		return []world.Finding{{Monitor: "strategy-twin", Identity: "annotation-strategy-diverges", Message: "after this event the phases served with the owners annotation are in another state than the ones served with native owner references, driven through the same history (first line of each pair: native):\n" + strings.Join(diff, "\n")}}
 	}
 	id := "cluster-scoped-variant-diverges"
 	return []world.Finding{{Monitor: "cluster-twin", Identity: id, Message: "after this event the cluster-scoped kinds are in another state than the namespaced ones driven through the same history:\n" + strings.Join(diff, "\n")}}
@@ -417,10 +457,13 @@ type Scenario struct {
 	Edits     int      `json:"edits"`
 	Pauses    int      `json:"pauses"`
 	Limit     int      `json:"revisionHistoryLimit"`
+	// Variant: "" compares namespaced with cluster-scoped kinds, "annotation" compares delegated
+	// phases served with native owner references with ones served with the owners annotation
+	Variant string `json:"variant"`
 }
 
 func (sc Scenario) name() string {
-	return fmt.Sprintf("cluster-twin %s phases=%d delegated=%03b successor=%v statuses=%d users=%d third=%d edits=%d pauses=%d limit=%d", sc.Kind, sc.N, sc.Mask, sc.Successor, len(sc.Classes), sc.Users, sc.Third, sc.Edits, sc.Pauses, sc.Limit)
+	return fmt.Sprintf("twin"+sc.Variant+" %s phases=%d delegated=%03b successor=%v statuses=%d users=%d third=%d edits=%d pauses=%d limit=%d", sc.Kind, sc.N, sc.Mask, sc.Successor, len(sc.Classes), sc.Users, sc.Third, sc.Edits, sc.Pauses, sc.Limit)
 }
 
 var tmplObjs = [][]string{{"a", "b"}, {"a", "c"}, {"a", "b"}}
@@ -432,11 +475,12 @@ func (sc Scenario) template(h half, i int) corev1alpha1.ObjectSetTemplateSpec {
 // System builds the lockstep system of a scenario.
 func System(sc Scenario) *world.System {
 	cfg := osw.B1(sc.N, sc.Mask)
+	halves := halvesOf(sc)
 	return &world.System{
 		Name: sc.name(),
 		Init: func() *world.World {
 			w := osw.NewWorld()
-			w.MustCreate(&corev1.Namespace{ObjectMeta: metav1.ObjectMeta{Name: CNS}})
+			w.MustCreate(&corev1.Namespace{ObjectMeta: metav1.ObjectMeta{Name: halves[1].objNS()}})
 			for _, h := range halves {
 				switch sc.Kind {
 				case "chain":
@@ -469,7 +513,7 @@ func System(sc Scenario) *world.System {
 				}
 			}
 			// reconcile of every pair (both controllers, namespaced first)
-			for _, p := range pairs(w) {
+			for _, p := range pairs(w, halves) {
 				p := p
 				evs = append(evs, world.Event{Name: "reconcile:" + p.Kind + "/" + p.Label, Apply: func(w *world.World) *world.Pass {
 					var last *world.Pass
@@ -604,14 +648,21 @@ func System(sc Scenario) *world.System {
 			}
 			return evs
 		},
-		Invariant: Invariant,
+		Invariant: func(w *world.World) []world.Finding { return invariant(w, halves) },
 	}
 }
 
 // Run explores the scenarios for property prop and reports under sub "cluster-twin".
 func Run(prop string, scs []Scenario, o checks.Opts) *report.Report {
-	rep := report.New(prop, "cluster-twin")
+	return runNamed("cluster-twin", prop, scs, o)
+}
+
+func runNamed(sub, prop string, scs []Scenario, o checks.Opts) *report.Report {
+	rep := report.New(prop, sub)
 	rep.Rule = "lockstep explicit-state BFS to closure over one world that holds the namespaced kinds (ObjectSet / ObjectSetPhase / ObjectDeployment managing objects in ns) and their cluster-scoped variants (ClusterObjectSet / ClusterObjectSetPhase / ClusterObjectDeployment managing the same objects in cns) side by side: every event - reconcile of a pair of controllers, workload status change, user pause / unpause / archive / delete / template edit, third-party delete, garbage collector - is applied to both halves; after every event the projections of the two halves (kinds without the Cluster prefix, namespaces dropped, generated names by position; objects with owners, revision, status; every PKO object's lifecycle, finalizers, conditions with reason and observedGeneration, revision, controllerOf, previous) must be equal"
+	if sub == "strategy-twin" {
+		rep.Rule = "lockstep explicit-state BFS to closure over one world that holds the same ObjectSets twice - in ns their delegated phases are served by the phase controller using native owner references, in ans by the one keeping ownership in the owners annotation (the multi-cluster constructor): every event - reconcile of a pair of controllers, workload status change, user pause / unpause / archive / delete, third-party delete, garbage collector - is applied to both halves; after every event the projections of the two halves (objects with their controller, revision, status; every PKO object's lifecycle, finalizers, conditions with reason and observedGeneration, revision, controllerOf, previous, remote phases) must be equal; plain (non-controller) owners are left out: former controllers stay in ownerReferences and are dropped from the annotation by design"
+	}
 	rep.Bounds["systems"] = len(scs)
 	for i, sc := range scs {
 		if o.Shards > 1 && i%o.Shards != o.Shard {
@@ -638,5 +689,12 @@ func Replay(v report.Violation) string {
 func Sub(prop string, scenarios func(quick bool) []Scenario) *checks.Sub {
 	return &checks.Sub{Name: "cluster-twin", Shards: func(t string) int { return len(scenarios(t != "thorough")) },
 		Run:    func(o checks.Opts) *report.Report { return Run(prop, scenarios(o.Quick()), o) },
+		Replay: Replay, Parallel: true}
+}
+
+// StrategySub is the registration of the native-vs-annotation owner strategy lockstep sub.
+func StrategySub(prop string, scenarios func(quick bool) []Scenario) *checks.Sub {
+	return &checks.Sub{Name: "strategy-twin", Shards: func(t string) int { return len(scenarios(t != "thorough")) },
+		Run:    func(o checks.Opts) *report.Report { return runNamed("strategy-twin", prop, scenarios(o.Quick()), o) },
 		Replay: Replay, Parallel: true}
 }
